@@ -260,10 +260,17 @@ def build_extracted():
     return exe
 
 
+# generous: a chunk of the largest thorough tier takes < 4 min on an idle machine, but checks may share the machine
+OCAML_CHUNK_TIMEOUT = 3000
+
+
 def _ocaml_chunk(args):
     exe, text, mode = args
-    p = subprocess.run(["bash", "-c", "ulimit -s unlimited 2>/dev/null; exec %s %s" % (exe, mode)], input=text,
-                       stdout=subprocess.PIPE, stderr=subprocess.PIPE, text=True, timeout=900)
+    try:
+        p = subprocess.run(["bash", "-c", "ulimit -s unlimited 2>/dev/null; exec %s %s" % (exe, mode)], input=text,
+                           stdout=subprocess.PIPE, stderr=subprocess.PIPE, text=True, timeout=OCAML_CHUNK_TIMEOUT)
+    except subprocess.TimeoutExpired:
+        raise CheckError("extracted model runner did not finish a chunk within %d s" % OCAML_CHUNK_TIMEOUT)
     outs = [l for l in p.stdout.splitlines() if not l.startswith("WARNING conda")]
     return p.returncode, outs, p.stderr[-2000:]
 
